@@ -34,7 +34,9 @@ func c05OutTokens() []string {
 		trig + "\r\n" + strings.Repeat(" ", 40) + "Saved 1 file/directory\r\n- a.txt\r\n",                                                // scroll-back of a finished transfer
 		"::TRZSZ:TRANSFER:X:1.1.8:1234567890100:0\r\n", "::TRZSZ:TRANSFER:S:1.1:77\r\n", "::TRZSZ:TRANSFER:S:a.b.c\r\n", "::TRZSZ:TRANSFER:",
 		"**\x18B0100000023be5\r\x8a", "**\x18B00000000000000\r\x8asz: cannot open /x: No such file\r\n", "**\x18B0", "*\x18B0100000023be50",
-		"\x1b]52;c;QUJD", "\x1b]52;x;QUJD\x07", "\x1b]52;", "\x1b]52;c;" + strings.Repeat("A", 1000) + "!!", "<ENABLE_TRZSZ_TRACE_LOG", "<DISABLE_TRZSZ_TRACE_LOG", "ENABLE_TRZSZ_TRACE_LOG>",
+		"\x1b]52;c;QUJD", "\x1b]52;x;QUJD\x07", "\x1b]52;",
+		"ls\r\n\x1b]52;c;aGVsbG8gd29ybGQsIGhlbGxvIHdvcmxkLCBoZWxsbyB3b3JsZA==\x07user@host:~/project$ ", // a complete clipboard sequence inside ordinary output: passes through whatever the cut
+		"\x1b]52;c;QUJD\x07\x1b]52;c;REVG\x07 two in a row, then a longer tail of ordinary screen output\r\n$ ", "\x1b]52;c;" + strings.Repeat("A", 1000) + "!!", "<ENABLE_TRZSZ_TRACE_LOG", "<DISABLE_TRZSZ_TRACE_LOG", "ENABLE_TRZSZ_TRACE_LOG>",
 	}
 	// truncations that no longer satisfy the trigger grammar (from 24 bytes on a truncation is itself a complete trigger)
 	for _, cut := range []int{5, 17, 18, 20, 22, 23} {
